@@ -1,0 +1,15 @@
+//go:build !verif
+
+// Package verifhook holds the scheduling seams used by the deterministic
+// simulation harness that lives outside this repository. Without the `verif`
+// build tag every function here is an empty stub and Enabled is a false
+// constant, so guarded call sites are removed by the compiler.
+package verifhook
+
+import "sync"
+
+const Enabled = false
+
+func At(string, string) {}
+
+func WrapLocker(l sync.Locker) sync.Locker { return l }
